@@ -71,7 +71,16 @@ impl Contents {
                         if lf(&o.ser) == expect {
                             val.push(s.to_string());
                         } else {
-                            notes.push(json!({"tag": tag, "content": s, "note": "valid entry not canonical", "ser": o.ser}));
+                            // another spelling of the same value is fine (and merely not used at message
+                            // level); a serialisation that re-parses to another value, or not at all, is not
+                            let body = lf(&o.ser);
+                            let body = body.strip_prefix(&format!(":{}:", tag)).unwrap_or(&body).to_string();
+                            let note = match guarded(|| crate::registry::parse_by_tag(tag, &body)) {
+                                Ok(Some(Ok(o2))) if o2.json == o.json && o2.ser == o.ser => "valid entry in another spelling than the canonical one",
+                                Ok(Some(Ok(_))) => "valid entry changes value on round trip",
+                                _ => "valid entry serialises to text the field rejects",
+                            };
+                            notes.push(json!({"tag": tag, "content": s, "note": note, "ser": o.ser}));
                         }
                     }
                     Ok(Some(Err(e))) => notes.push(json!({"tag": tag, "content": s, "note": "valid entry rejected by field parser", "err": e})),
